@@ -1,5 +1,6 @@
 import CkbVerif.Driver.Util
 import CkbVerif.Model.Freezer
+import CkbVerif.Driver.C09Top
 
 /-! Line-protocol driver for C09 (see harness/hcore/src/c09.rs for the protocol). -/
 namespace CkbVerif.Driver.C09
@@ -102,7 +103,7 @@ def step (s : St) (ts : List String) : St × String :=
     else (s, "bad-op")
   | _ => (s, "bad-op")
 
-def main (_args : List String) : IO UInt32 :=
-  runLines ({} : St) step
+def main (args : List String) : IO UInt32 :=
+  if args = ["top"] then C09Top.main else runLines ({} : St) step
 
 end CkbVerif.Driver.C09
